@@ -39,6 +39,10 @@ pub fn cells_over(pool: &[Value]) -> Vec<Cell> {
             b: None,
             expr: Expr::If(Box::new(lit(a)), Box::new(lit(&Value::Int(1))), Box::new(lit(&Value::Int(2)))),
         });
+        // the shapes a simplifier would fold: `if a then true else false`, `if a then false else true`, equal branches
+        for (t, f, name) in [(Value::Bool(true), Value::Bool(false), "if-tf"), (Value::Bool(false), Value::Bool(true), "if-ft"), (Value::Int(7), Value::Int(7), "if-same")] {
+            out.push(Cell { op: name.into(), class: "if", a: a.clone(), b: None, expr: Expr::If(Box::new(lit(a)), Box::new(lit(&t)), Box::new(lit(&f))) });
+        }
     }
     for op in BIN_OPS.iter().chain(LAZY_BIN.iter()) {
         let class = if LAZY_BIN.contains(op) { "lazy" } else { "bin" };
